@@ -91,22 +91,22 @@ type Fn struct {
 	setup   bool
 	closure bool
 	goSites []LockSet
-	option  bool     // returns an ...Option: its closures run while the object is being configured
-	spawns  bool     // contains a go statement or calls something unknown / spawning (fixpoint)
-	callees []*Fn    // static callees (for spawns)
-	unknown bool     // calls a function value or a method outside the package through an interface
+	option  bool  // returns an ...Option: its closures run while the object is being configured
+	spawns  bool  // contains a go statement or calls something unknown / spawning (fixpoint)
+	callees []*Fn // static callees (for spawns)
+	unknown bool  // calls a function value or a method outside the package through an interface
 }
 
 // goroutines that exist once per object; the pseudo-lock is only credited to locations of that object's struct
 var singleInstance = map[string]string{
-	"(*client).Dial -> keepalive":          "client: Dial is called once per client (documented: New, register handlers, Dial)",
-	"(*client).reconnecting -> lit":        "client: single-flight - doReconnectting is tested and set under the client lock before the goroutine starts and cleared only after it has ended (waitCh), so successive recovery goroutines are ordered through that lock",
-	"(*tcpConn).communicating -> reading":  "tcpConn: communicating() is called once, by the dialer that created the connection",
-	"(*tcpConn).communicating -> writing":  "tcpConn: as above",
-	"(*tcpConn).OnPacket -> lit":           "tcpConn: started inside onPacketOnce.Do",
-	"(*wsConn).communicating -> reading":   "wsConn: communicating() is called once, by the dialer that created the connection",
-	"(*wsConn).communicating -> writing":   "wsConn: as above",
-	"(*wsConn).OnPacket -> lit":            "wsConn: started inside onPacketOnce.Do",
+	"(*client).Dial -> keepalive":         "client: Dial is called once per client (documented: New, register handlers, Dial)",
+	"(*client).recoverLoss -> lit":        "client: single-flight - doReconnectting is tested and set under the client lock before the goroutine starts and cleared only after it has ended (waitCh), so successive recovery goroutines are ordered through that lock",
+	"(*tcpConn).communicating -> reading": "tcpConn: communicating() is called once, by the dialer that created the connection",
+	"(*tcpConn).communicating -> writing": "tcpConn: as above",
+	"(*tcpConn).OnPacket -> lit":          "tcpConn: started inside onPacketOnce.Do",
+	"(*wsConn).communicating -> reading":  "wsConn: communicating() is called once, by the dialer that created the connection",
+	"(*wsConn).communicating -> writing":  "wsConn: as above",
+	"(*wsConn).OnPacket -> lit":           "wsConn: started inside onPacketOnce.Do",
 }
 
 // documented set-up phase: handlers are registered, and Dial initialises the client, before anything is shared
@@ -1052,7 +1052,7 @@ func writeCoq(path string, sites []*Site, notes []string) {
 	}
 	b.WriteString("].\n")
 	for _, n := range notes {
-		fmt.Fprintf(&b, "(* note: %s *)\n", strings.ReplaceAll(n, "*)", "* )"))
+		fmt.Fprintf(&b, "(* note: %s *)\n", strings.ReplaceAll(strings.ReplaceAll(n, "*)", "* )"), "(*", "( *"))
 	}
 	if err := os.WriteFile(path, []byte(b.String()), 0o644); err != nil {
 		fatal(err)
